@@ -1151,4 +1151,6 @@ def run(chk: Check) -> None:
     d3f_merge_references(chk)
     from rules.shared import shared_dest_defaults_rule
     shared_dest_defaults_rule(chk, "C07-D10", (PATHS,), 1)
+    from rules.shared import merge_identity_rule
+    merge_identity_rule(chk, "C07-D11", (PATHS,), 1)
     d4_once(chk)
